@@ -9,6 +9,7 @@ pub mod c04;
 pub mod c05;
 pub mod c06;
 pub mod c07;
+pub mod c09;
 pub mod c11;
 pub mod c12;
 pub mod c13;
@@ -26,6 +27,7 @@ pub fn make(id: &str, run: &mut crate::run::Run) -> Option<Box<dyn Prop>> {
 		"C03" => Some(Box::new(c03::C03::new(run))),
 		"C06" => Some(Box::new(c06::C06::new(run))),
 		"C07" => Some(Box::new(c07::C07::new(run))),
+		"C09" => Some(Box::new(c09::C09::new(run))),
 		"C11" => Some(Box::new(c11::C11::new(run))),
 		"C12" => Some(Box::new(c12::C12::new(run))),
 		"C13" => Some(Box::new(c13::C13::new(run))),
@@ -46,13 +48,15 @@ pub fn make_for_replay(id: &str, run: &mut crate::run::Run) -> Option<Box<dyn Pr
 	make(id, run)
 }
 
-pub const ALL: &[&str] = &["C01", "C02", "C03", "C04", "C05", "C06", "C07", "C11", "C12", "C13", "C14", "C15", "C16", "C17", "C18", "C19"];
+pub const ALL: &[&str] = &["C01", "C02", "C03", "C04", "C05", "C06", "C07", "C09", "C11", "C12", "C13", "C14", "C15", "C16", "C17", "C18", "C19"];
 
 /// (runs, max steps per run) per tier
 pub fn budget(id: &str, thorough: bool) -> (u64, usize) {
 	match (id, thorough) {
 		("C06", false) => (120, 70),
 		("C06", true) => (600, 90),
+		("C09", false) => (160, 160),
+		("C09", true) => (3000, 400),
 		("C13", false) => (160, 90),
 		("C13", true) => (3000, 140),
 		(_, false) => (160, 45),
@@ -85,6 +89,7 @@ pub fn rule(id: &str) -> String {
 		"C18" => "seeded histories in which a wallet receives, the payment is mined and reported confirmed, then a fork of depth 1..6 is aimed at / just above / just below the receiving block (with or without re-including the transaction, fork length depth+1..2), with refreshes and scans at arbitrary points, sends attempted while reverted, and re-mining; a case is one (scan or refresh, payment on chain?, entry type) observation; non-trivial when the fork removed a payment the wallet had reported confirmed".into(),
 		"C13" => "after a seeded history the real OwnerAPIHandlerV3 of a wallet is driven in-process by sessions of 40-120 requests from a legitimate client (ECDH key exchange, AES-GCM envelopes) and an attacker on the wire: plaintext calls of 13 methods, envelopes under superseded / random keys, replays from before a re-key, bit flips in body or nonce, arrays, nested envelopes, truncated and garbage bodies, malformed key exchanges, re-initialisation in clear and inside an envelope, restarts; a case is one request (kind x method x session epoch); non-trivial when the request is not an honest call under the current key".into(),
 		"C14" => "seeded histories on wallets opened with a keychain mask (restarts give every wallet several successive tokens); at random wallet states every token-taking api::Owner method (14 state-changing / key-deriving / secret-revealing ones and 6 read-only ones) is called with the right token, no token, a random token, the right token with one bit flipped, another wallet's token and the token of a previous open; wallets are closed through close_wallet and called again; at the end the same explicit trace is replayed in an unmasked twin world and step outcomes and a canonical end-state projection (per account value/status/coinbase of outputs, entry types, amounts, confirmations, proofs) are compared; a case is one call (method x token class x open/closed) or one twin comparison; non-trivial when the token is not the right one or the wallet is closed".into(),
+		"C09" => "after a seeded history has put valid traffic of every kind on the wire (S1/S2/S3/I1/I2 slates, with and without proofs and TTLs), bursts of faulted decodes: an entry point (V4 slate JSON, armored slatepack plain / encrypted to the wallet, binary and JSON slatepack, decode_slatepack_message, slatepack and onion address, payment-proof JSON + verify, foreign JSON-RPC receive_tx / finalize_tx / build_coinbase bodies, owner JSON-RPC requests inside an honest encrypted envelope, slatepack file, age ciphertext validly encrypted to the wallet with a malformed plaintext) x a byte-level fault (bit flip(s), truncate, extend, duplicate/drop a segment, splice two messages, swap armor words, whitespace/'>' insertion, header/footer edits, alphabet violation, length-prefix extremes, digit edits, whole-message replacement); a case is one (entry, fault, outcome); non-trivial when the fault changed the bytes; panics are caught at the step boundary, allocation is counted per step, a real-time watchdog turns a hang into an abnormal death with a journal".into(),
 		_ => "seeded histories".into(),
 	}
 }
